@@ -79,6 +79,8 @@ pub struct NetState {
     pub stats: NetStats,
     /// total bytes ever pushed into inbound (for stamping last inbound time)
     pub last_inbound_ns: u64,
+    /// (arrival time, cumulative bytes arrived) per server->client segment
+    pub arrivals: Vec<(u64, usize)>,
     pub read_total: usize,
     /// frame boundaries of c2s as tracked by a running envelope scan (for probes)
     scan_pos: usize,
@@ -109,6 +111,7 @@ pub fn new_net(cfg: NetCfg) -> Net {
         registered: false,
         stats: NetStats::default(),
         last_inbound_ns: 0,
+        arrivals: Vec::new(),
         read_total: 0,
         scan_pos: 0,
         scan_next_frame_at: 8,
